@@ -28,6 +28,9 @@ pub struct Case {
     /// fixed probe depth instead of one derived from the expected temperature
     #[serde(default)]
     pub depth: Option<f64>,
+    /// the builder lives through a history of earlier setter calls (see OptCfg)
+    #[serde(default)]
+    pub builder_history: Option<u64>,
 }
 
 /// allowed temperature interval [lo, hi] of inner loop l (None: nothing is required)
@@ -81,7 +84,7 @@ pub fn scripted(c: &Case) -> ScriptedCase {
         init: vec![0.; c.k],
         bounds: vec![(-1e6, 1e6); c.k],
         script: Script::Probe { d, inner: c.inner, jam: c.jam.clone() },
-        cfg: OptCfg { steps: c.loops * c.inner + c.extra_steps, inner_steps: c.inner, kt_start: c.kt_start, kt_finish: c.kt_finish, kt_ratio: c.kt_ratio, max_step_size: 1e-6, seed: c.seed, convergence: None },
+        cfg: OptCfg { steps: c.loops * c.inner + c.extra_steps, inner_steps: c.inner, kt_start: c.kt_start, kt_finish: c.kt_finish, kt_ratio: c.kt_ratio, max_step_size: 1e-6, seed: c.seed, convergence: None, builder_history: c.builder_history },
         via_api: c.via_api,
     }
 }
@@ -180,7 +183,7 @@ pub fn cases(tier: Tier, seed: u64) -> Vec<Case> {
     let mut out = vec![];
     let mut push = |kt_start: f64, kt_finish: Option<f64>, kt_ratio: Option<f64>, loops: u64, inner: u64, via_api: bool| {
         let i = out.len() as u64;
-        out.push(Case { kt_start, kt_finish, kt_ratio, loops, inner, k: if i % 2 == 0 { 6 } else { 16 }, seed: seed.wrapping_mul(7919).wrapping_add(i), via_api, jam: vec![], extra_steps: 0, depth: None });
+        out.push(Case { kt_start, kt_finish, kt_ratio, loops, inner, k: if i % 2 == 0 { 6 } else { 16 }, seed: seed.wrapping_mul(7919).wrapping_add(i), via_api, jam: vec![], extra_steps: 0, depth: None, builder_history: None });
     };
     // ratio given (exact schedule), with and without a finishing temperature also set
     for &(s, r) in [(0.1, 0.0), (1., 0.1), (0.5, 0.5), (1., 0.9)].iter() {
@@ -201,11 +204,11 @@ pub fn cases(tier: Tier, seed: u64) -> Vec<Case> {
     for &(inner, jam_from, jam_len, r) in [(3u64, 40u64, 60u64, 0.004), (6, 30, 90, 0.004), (1, 30, 25, 0.002), (12, 20, 140, 0.003)].iter() {
         let loops = jam_from + jam_len + many / 20;
         let i = out.len() as u64;
-        out.push(Case { kt_start: 1., kt_finish: None, kt_ratio: Some(r), loops, inner: if inner < 3 { 3 } else { inner }, k: 6, seed: seed.wrapping_mul(7919).wrapping_add(i), via_api: false, jam: vec![(jam_from, jam_from + jam_len)], extra_steps: 0, depth: None });
+        out.push(Case { kt_start: 1., kt_finish: None, kt_ratio: Some(r), loops, inner: if inner < 3 { 3 } else { inner }, k: 6, seed: seed.wrapping_mul(7919).wrapping_add(i), via_api: false, jam: vec![(jam_from, jam_from + jam_len)], extra_steps: 0, depth: None, builder_history: None });
     }
     let mut push = |kt_start: f64, kt_finish: Option<f64>, kt_ratio: Option<f64>, loops: u64, inner: u64, via_api: bool| {
         let i = out.len() as u64;
-        out.push(Case { kt_start, kt_finish, kt_ratio, loops, inner, k: if i % 2 == 0 { 6 } else { 16 }, seed: seed.wrapping_mul(7919).wrapping_add(i), via_api, jam: vec![], extra_steps: 0, depth: None });
+        out.push(Case { kt_start, kt_finish, kt_ratio, loops, inner, k: if i % 2 == 0 { 6 } else { 16 }, seed: seed.wrapping_mul(7919).wrapping_add(i), via_api, jam: vec![], extra_steps: 0, depth: None, builder_history: None });
     };
     // finishing temperature given
     for &(s, f) in [(0.1, 1e-3), (1., 0.01), (0.5, 0.5), (1e-3, 0.1)].iter() {
@@ -220,17 +223,17 @@ pub fn cases(tier: Tier, seed: u64) -> Vec<Case> {
         for &frac in [0.999, 0.5, 0.25].iter() {
             let inner = 3 * n;
             let i = out.len() as u64;
-            out.push(Case { kt_start: s, kt_finish: Some(f), kt_ratio: None, loops: l, inner, k: 6, seed: seed.wrapping_mul(7919).wrapping_add(i), via_api: i % 2 == 0, jam: vec![], extra_steps: ((inner as f64) * frac) as u64, depth: None });
+            out.push(Case { kt_start: s, kt_finish: Some(f), kt_ratio: None, loops: l, inner, k: 6, seed: seed.wrapping_mul(7919).wrapping_add(i), via_api: i % 2 == 0, jam: vec![], extra_steps: ((inner as f64) * frac) as u64, depth: None, builder_history: None });
         }
     }
     // zero temperature: no worse move is accepted however small it is
     for &d in [5e-324, 1e-300, 1e-100, 1e-20, 1e-16, 1e-12, 1e-8].iter() {
         let i = out.len() as u64;
-        out.push(Case { kt_start: 0., kt_finish: if i % 2 == 0 { Some(0.1) } else { None }, kt_ratio: if i % 3 == 0 { Some(0.5) } else { None }, loops: 3, inner: 3 * n / 2, k: 6, seed: seed.wrapping_mul(7919).wrapping_add(i), via_api: false, jam: vec![], extra_steps: 0, depth: Some(d) });
+        out.push(Case { kt_start: 0., kt_finish: if i % 2 == 0 { Some(0.1) } else { None }, kt_ratio: if i % 3 == 0 { Some(0.5) } else { None }, loops: 3, inner: 3 * n / 2, k: 6, seed: seed.wrapping_mul(7919).wrapping_add(i), via_api: false, jam: vec![], extra_steps: 0, depth: Some(d), builder_history: None });
     }
     let mut push = |kt_start: f64, kt_finish: Option<f64>, kt_ratio: Option<f64>, loops: u64, inner: u64, via_api: bool| {
         let i = out.len() as u64;
-        out.push(Case { kt_start, kt_finish, kt_ratio, loops, inner, k: if i % 2 == 0 { 6 } else { 16 }, seed: seed.wrapping_mul(7919).wrapping_add(i), via_api, jam: vec![], extra_steps: 0, depth: None });
+        out.push(Case { kt_start, kt_finish, kt_ratio, loops, inner, k: if i % 2 == 0 { 6 } else { 16 }, seed: seed.wrapping_mul(7919).wrapping_add(i), via_api, jam: vec![], extra_steps: 0, depth: None, builder_history: None });
     };
     // neither
     push(0.3, None, None, 1, 3 * n, false);
@@ -242,11 +245,24 @@ pub fn cases(tier: Tier, seed: u64) -> Vec<Case> {
         push(0., None, None, l, 3 * n / 2, false);
         push(0., Some(0.001), None, l, 3 * n / 2, true);
     }
+    // a builder that has been used before: every other configuration a second time, reached
+    // through a history of earlier settings
+    let again: Vec<Case> = out
+        .iter()
+        .enumerate()
+        .filter(|(i, c)| i % 2 == 1 && c.loops * c.inner <= 3 * n * 10)
+        .map(|(i, c)| {
+            let mut c = c.clone();
+            c.builder_history = Some(seed.wrapping_mul(104_729).wrapping_add(i as u64));
+            c
+        })
+        .collect();
+    out.extend(again);
     out
 }
 
 pub fn run(ctx: &Ctx) {
-    ctx.set_rule("anchor/probe/sentinel scripts whose probe depth in inner loop l is set near the temperature the requested schedule implies (p ~ 1/e); configurations: kt_ratio given (exact schedule kt_start (1-ratio)^l; also with kt_finish set at the same time), kt_finish given (allowed: a constant factor between (finish/start)^(1/(L-2)) and (finish/start)^(1/L), i.e. the last loop within one cooling step of kt_finish; cooling and heating), neither (first loop only), kt_start = 0 (every worse probe in every loop rejected); L in {1,2,3,10,50} and thousands of 3- or 6-step loops; through the CLI parser and the builder API. Per window of loops the acceptance count is compared with the probability interval implied by the allowed temperature interval (Chernoff/KL bound < 1e-12 to flag); first and second halves of the loops are compared with the same interval (constancy within a loop). Non-trivial = configurations with >= 3 loops; distinct by configuration");
+    ctx.set_rule("anchor/probe/sentinel scripts whose probe depth in inner loop l is set near the temperature the requested schedule implies (p ~ 1/e); configurations: kt_ratio given (exact schedule kt_start (1-ratio)^l; also with kt_finish set at the same time), kt_finish given (allowed: a constant factor between (finish/start)^(1/(L-2)) and (finish/start)^(1/L), i.e. the last loop within one cooling step of kt_finish; cooling and heating), neither (first loop only), kt_start = 0 (every worse probe in every loop rejected); L in {1,2,3,10,50} and thousands of 3- or 6-step loops; through the CLI parser and the builder API, on fresh builders and on builders with a history of earlier setter calls (other step counts, loop lengths, temperatures first; clones). Per window of loops the acceptance count is compared with the probability interval implied by the allowed temperature interval (Chernoff/KL bound < 1e-12 to flag); first and second halves of the loops are compared with the same interval (constancy within a loop). Non-trivial = configurations with >= 3 loops; distinct by configuration");
     ctx.assume("temperature is inferred from acceptance frequencies; resolution ~1.3/sqrt(n) relative per window");
     let cs = cases(ctx.tier, ctx.seed);
     let prev = std::panic::take_hook();
